@@ -76,7 +76,7 @@ def run_session(ctx, fzf, sid, cfg, items, steps, width, height):
     s = tmuxdrv.Session(ctx, fzf, cfg.args(), input_data="".join(i + "\n" for i in items), width=width, height=height)
     try:
         s.wait_listening()
-        s.wait_for(lambda tr: any(e["ev"] == "term.list" and e.get("final") for e in tr), what="first final list")
+        s.wait_for(lambda tr: any(e["ev"] == "term.list" and not e["reading"] for e in tr), what="first final list")
         loops = 0
         for kind, arg in steps:
             if kind == "post":
